@@ -85,7 +85,7 @@ Print Assumptions C05_last_prev_enumerates.
 (** ---- the hypothesis of the refinement theorems above, "a committed tree has no emptied leaf", is no longer only monitored:
     it is a theorem about Tree.v, the model of what Tx.Commit does to a bucket's tree (node.rebalance + node.spill), which is
     compared with the real commit on every generated case (tree before, visit order, tree after) ---- *)
-From Bbolt Require Node Tree TreeProofs TreeCursorProofs.
+From Bbolt Require Node Tree TreeProofs TreeCursorProofs TreeOrderProofs.
 Module CommittedTrees.
 Import Node Tree TreeProofs.
 
@@ -113,4 +113,15 @@ Theorem C05_commit_keeps_the_enumeration : forall ps fill fuel t order t' evs,
   aligned t -> commit_tree ps fill fuel t order = Ok (t', evs) -> Cursor.flatten (to_ctree t') = Cursor.flatten (to_ctree t).
 Proof. exact commit_tree_cursor_flatten. Qed.
 Print Assumptions C05_commit_keeps_the_enumeration.
+
+(** The OTHER hypothesis of the refinement theorems, key order (Cursor.wf), is only partly carried over to the commit model: an order
+    invariant [ob] on Tree.nt implies Cursor.wf of the translated tree (below), but that the commit PRESERVES such an invariant is not proved -
+    TreeOrderProofs.wf_broken_between_rebalance_and_spill shows Cursor.wf does not even hold between rebalance and spill (spill restores it
+    by re-keying the rewritten children), and w3_needs_stale_first_children_materialised shows the statement needs the extra hypothesis that a
+    first child holding keys below its (stale) separator is materialised - true of bbolt, where only node.put creates such keys.  Key order of
+    every committed tree therefore stays a MONITORED hypothesis (the decoder's order verdict on every committed image, C07) - labelled partial. *)
+Import TreeOrderProofs.
+Theorem C05_ordered_tree_is_cursor_wf_partial : forall t, aligned t -> ob None None t -> Cursor.wf (to_ctree t) = true.
+Proof. exact ob_cursor_wf. Qed.
+Print Assumptions C05_ordered_tree_is_cursor_wf_partial.
 End CommittedTrees.
